@@ -203,8 +203,8 @@ func lowerDomain(domain string) string {
 		b.WriteString(strings.ToLower(domain[:start]))
 
 		end := strings.IndexByte(domain[start:], '}')
-		if end < 0 {
-			b.WriteString(domain[start:])
+		if end < 0 { // 没有对应的 }，不构成参数，属于普通的字符串。
+			b.WriteString(strings.ToLower(domain[start:]))
 			break
 		}
 		b.WriteString(domain[start : start+end+1])
